@@ -4,7 +4,10 @@
 // REAL didstore on a real bbolt file in all permutations (or seeded samples), each order on a fresh store,
 // the same order on several independent stores, with duplicates re-delivered and the store reopened from disk.
 // Oracle: the resolution digest (see digest()) of one event set is the same for every order/store;
-// online after every Add: a DID for which a deactivation was delivered never resolves as active.
+// online after every Add: a DID for which a deactivation was delivered never resolves as active, and the conflicted
+// count, the Conflicted() iterator and the conflicted status of the latest versions agree (document count = DIDs seen);
+// after the last Add: the latest version stems from exactly the unreferenced transactions (branches) of the DID - one
+// branch: not conflicted and that transaction's own document - and carries the creation transaction's signing time.
 package c10
 
 import (
@@ -1489,6 +1492,7 @@ func TestCheck(t *testing.T) {
 		" x document richness (several controllers/services/keys, embedded key agreement keys, content-derived or reused service ids) x time mode (monotone, equal siblings, all equal, skewed) x clock jitter x unrelated prevs x exact duplicates; " +
 		"every generated document passes the real NetworkDocumentValidator and is handed to the real didstore (bbolt file) as the unmarshalled payload with Lamport-consistent clocks. " +
 		"Orders: all permutations when n! <= the tier's limit, else identity+reverse+seeded samples; every order on a fresh store, replicas >0 additionally re-deliver duplicates, reopen mid-way and compare the digest before/after a final reopen. " +
+		"Besides digest equality: online after every Add deactivation stickiness and agreement of conflicted count / Conflicted() / latest conflicted status / document count; after the last Add sources of the latest version = unreferenced transactions of the DID. " +
 		"A case is non-trivial when the set has >= 2 distinct transactions; distinct by (set, order, replica).")
 	r.Require(500, 200)
 	r.Assume("a bbolt-backed store; the redis back end is not exercised")
